@@ -14,11 +14,28 @@ structure HeaderChecks (look : Bytes → Option Bytes) (c : Ctx) (a : Authorizat
   mode : ∃ sha, extractContentSha c.hs = .ok sha ∧ (a.credential.service = b!"s3" → sha ≠ none) ∧
     headerPayload c sha = .ok payload ∧ (sha = some .multipleChunks → c.decodedContentLength ≠ none)
   key : look a.credential.accessKey = some secret
-  date : ∃ dv, getUnique c.hs b!"x-amz-date" = some dv ∧ parseAmzDate dv = some d
+  /-- `x-amz-date` is a unique header whose value, edge blanks (SP / HTAB) removed, is a timestamp (d453cd3) -/
+  date : ∃ dv, getUnique c.hs b!"x-amz-date" = some dv ∧ parseAmzDate (trimOws dv) = some d
   /-- the credential scope names the day of `x-amz-date` (4011296) -/
   scopeDate : a.credential.date = d.fmtDate
   /-- every listed header is in the request (10af2bf) -/
   present : signedHeaderMissing c a = false
+
+/-- `extract_amz_date` yields a timestamp iff the unique `x-amz-date` value, trimmed of SP / HTAB, parses to it -/
+theorem extractAmzDate_ok_some_iff (hs : List (Bytes × Bytes)) (d : AmzDate) :
+    extractAmzDate hs = .ok (some d) ↔
+      ∃ dv, getUnique hs b!"x-amz-date" = some dv ∧ parseAmzDate (trimOws dv) = some d := by
+  unfold extractAmzDate
+  cases hg : getUnique hs b!"x-amz-date" with
+  | none => simp
+  | some dv =>
+    cases hp : parseAmzDate (trimOws dv) with
+    | none => simp [hp]
+    | some x =>
+      simp only [Option.some.injEq, exists_eq_left', hp]
+      constructor
+      · intro h; injection h with h; injection h with h
+      · intro h; rw [h]
 
 theorem header_accept_iff (sha256hex : Bytes → Bytes) (hmac : Bytes → Bytes → Bytes) (look : Bytes → Option Bytes)
     (c : Ctx) (ak region service : Bytes) :
@@ -50,43 +67,43 @@ theorem header_accept_iff (sha256hex : Bytes → Bytes) (hmac : Bytes → Bytes 
               · rename_i secret hkey
                 split at h
                 · contradiction
-                · rename_i dv hdv
+                · contradiction
+                · rename_i d hd
                   split at h
                   · contradiction
-                  · rename_i d hd
+                  · rename_i hscope
                     split at h
                     · contradiction
-                    · rename_i hscope
+                    · rename_i hmiss
                       split at h
                       · contradiction
-                      · rename_i hmiss
+                      · rename_i payload hpl
                         split at h
                         · contradiction
-                        · rename_i payload hpl
+                        · rename_i hsig
                           split at h
                           · contradiction
-                          · rename_i hsig
-                            split at h
-                            · contradiction
-                            · rename_i hstream
-                              injection h with h1 h2 h3
-                              refine ⟨a, secret, d, payload,
-                                ⟨ha, by simpa using halg, ?_, ⟨sha, hsha, ?_, hpl, ?_⟩, hkey, ⟨dv, hdv, hd⟩,
-                                  by simpa using hscope, by simpa using hmiss⟩, h1, h2, h3, ?_⟩
-                              · by_cases hs : a.credential.service = b!"s3"
-                                · exact Or.inl hs
-                                · by_cases ht : a.credential.service = b!"sts"
-                                  · exact Or.inr ht
-                                  · simp [hs, ht] at hsvc
-                              · intro hs
-                                simp only [hs, decide_true, Bool.true_and, decide_eq_true_eq] at hs3
-                                exact hs3
-                              · intro hm
-                                simp only [hm, decide_true, Bool.true_and, decide_eq_true_eq] at hstream
-                                exact hstream
-                              · simpa using hsig
-  · rintro ⟨a, secret, d, payload, ⟨ha, halg, hsvc, ⟨sha, hsha, hs3, hpl, hstream⟩, hkey, ⟨dv, hdv, hd⟩, hscope, hmiss⟩,
+                          · rename_i hstream
+                            injection h with h1 h2 h3
+                            refine ⟨a, secret, d, payload,
+                              ⟨ha, by simpa using halg, ?_, ⟨sha, hsha, ?_, hpl, ?_⟩, hkey,
+                                (extractAmzDate_ok_some_iff c.hs d).mp hd,
+                                by simpa using hscope, by simpa using hmiss⟩, h1, h2, h3, ?_⟩
+                            · by_cases hs : a.credential.service = b!"s3"
+                              · exact Or.inl hs
+                              · by_cases ht : a.credential.service = b!"sts"
+                                · exact Or.inr ht
+                                · simp [hs, ht] at hsvc
+                            · intro hs
+                              simp only [hs, decide_true, Bool.true_and, decide_eq_true_eq] at hs3
+                              exact hs3
+                            · intro hm
+                              simp only [hm, decide_true, Bool.true_and, decide_eq_true_eq] at hstream
+                              exact hstream
+                            · simpa using hsig
+  · rintro ⟨a, secret, d, payload, ⟨ha, halg, hsvc, ⟨sha, hsha, hs3, hpl, hstream⟩, hkey, hdate, hscope, hmiss⟩,
       h1, h2, h3, hsig⟩
+    have hd := (extractAmzDate_ok_some_iff c.hs d).mpr hdate
     unfold v4CheckHeaderAuth
     rw [ha]
     simp only []
@@ -100,7 +117,7 @@ theorem header_accept_iff (sha256hex : Bytes → Bytes) (hmac : Bytes → Bytes 
       · simp [hs3 hs]
       · simp [hs]
     rw [e2]
-    simp only [Bool.false_eq_true, if_false, hkey, hdv, hd]
+    simp only [Bool.false_eq_true, if_false, hkey, hd]
     rw [if_neg (by simp [hscope]), hmiss]
     simp only [Bool.false_eq_true, if_false, hpl]
     have e3 : ¬ (headerSignature sha256hex hmac c a secret d payload ≠ a.signature) := by simp [hsig]
